@@ -7,24 +7,45 @@ import registry
 
 TECH = "contract-based deductive verification: Kani/CBMC harness contracts on the real crate (scratch copy of the working tree) and Verus on mechanically extracted functions"
 CLAIMS = {
- "C02": ("other", "Bounded stand-ins only: from every state of the gradual calculators' representation invariant (object count fixed per harness, position and nth argument symbolic) one next()/nth(k) processes exactly the difficulty objects of the consumed hit objects, in order, and the i-th value carries the counts of exactly the first i objects; each mode's constructor converts with the same (mode, mods) as the one-shot path. Equality of the float attributes rests on 'same function, same prefix' (assumption A-F) and is not proved.", "DESIGN.md §5 C02",
-         "skill process/eval stubbed (frame assumed); new() establishing the invariant not proved; N<=3 quick, <=4 thorough; taiko healthy class only, F3/F4 known findings"),
- "C06": ("proof", "Proof-level core: TandemSorter::sort/toggle_marks proved by Verus on the extracted real code for all lengths (objects and hit sounds are permuted identically; pairing lemma). Bounded stand-ins for new_stable (n=5) and control-point insertion. Decoder totality / byte-string claims are outside the technique and not claimed.", "DESIGN.md §5 C06",
-         "vstd + two assume_specifications (slice::swap, leading_zeros); Box<[usize]> verified as Vec<usize>; std sort_by exercised only in the bounded harness"),
+ "C02": ("other", "Bounded stand-ins plus call-site proofs: from every state of the gradual calculators' representation invariant (object count fixed per harness, position and nth argument symbolic) one next()/nth(k) processes exactly the difficulty objects of the consumed hit objects, in order, and the i-th value carries the counts of exactly the first i objects; each mode's constructor converts with the same (mode, mods) as the one-shot path and catch converts its objects with the same arguments on both paths. Equality of the float attributes rests on 'same function, same prefix' (assumption A-F) and is not proved.", "DESIGN.md §5 C02",
+         "skill process/eval stubbed (frame assumed); new() establishing the invariant not proved; N<=3 quick, <=4 thorough; taiko healthy class only, F3/F4 known findings; mania hold-note combo under clock rates (F7) not checked"),
+ "C03": ("other", "Bounded stand-ins: for osu, mania and catch, from every invariant state (0 or 2 objects quick, 3 thorough) and any score state / caller Difficulty, GradualPerformance::next/nth/last consume min(n+1, remaining) objects, return None exactly when nothing remains, and the performance builder whose calculate() is invoked equals Performance(attrs_i).difficulty(D).passed_objects(i).state(S) field for field (calculate() replaced by a recording stub). Plus the proof that Performance::passed_objects forwards in all modes.", "DESIGN.md §5 C03",
+         "pp calculation itself stubbed (same function on both paths: A-F); taiko not covered; skill process/eval stubbed"),
+ "C05": ("proof", "Side conditions only: absence of panics (index, overflow, unwrap, unreachable) inside every function under contract for its stated precondition, checked by Kani on each harness; BananaShower::new terminates within 18 iterations without i32 overflow on the realistic domain (unwinding assertions). Whole-decoder / whole-pipeline totality is outside the technique and not claimed.", "DESIGN.md §5 C05",
+         "only the functions listed in the evidence; spinner length <= 800 ms for the termination obligation; F8 (f32 absorption beyond 2^30 ms) observed in the design phase is outside the realistic domain and not checked"),
+ "C06": ("proof", "Proof-level core: TandemSorter::sort/toggle_marks proved by Verus on the extracted real code for all lengths (objects and hit sounds are permuted identically; pairing lemma); control-point clamps for all f64 bit patterns. Bounded stand-ins for new_stable (n=5) and control-point insertion (vector length 0..3, any f64 times). Decoder totality / byte-string claims are outside the technique and not claimed.", "DESIGN.md §5 C06",
+         "vstd + two assume_specifications (slice::swap, leading_zeros); Box<[usize]> verified as Vec<usize>; std sort_by / binary_search exercised only in the bounded harnesses"),
  "C07": ("proof", "Proof on object-free maps for the whole dispatch decision: convert/convert_ref/convert_mut agree on Ok/Err class, payload and resulting map for all 32 (mode, is_convert, target) combinations and all legacy mod bits; every mode entry point (difficulty, strains, gradual) first calls convert_ref(own mode, difficulty mods) and propagates its error (call-site contract via recording stub).", "DESIGN.md §5 C07",
-         "maps without objects (the decision prefix does not read them); equality of downstream float results is assumption A-F"),
+         "maps without objects (the decision prefix does not read them); equality of downstream float results is assumption A-F; Performance::try_mode not covered"),
+ "C08": ("proof", "Partial, proof for what is claimed: a mod-provided attribute (lazer DifficultyAdjust) is used exactly as given and an explicit override always wins (ModsDependentKind::value, all bit patterns); Difficulty::get_clock_rate falls back to the mods' rate and hardrock offsets to the HR mod. Equivalence of legacy / intermode / lazer mod containers could not be brought within reach (BTreeSet-backed containers do not finish in CBMC) and is not claimed.", "DESIGN.md §5 C08",
+         "legacy mod bits only; representation equivalence and lazer rate mods (F9) not checked"),
+ "C09": ("proof", "Partial, proof for what is claimed: every ScoreState::accuracy (four modes, three osu! origins) is non-NaN, finite and >= 0 for all counts <= 2^20 incl. all-zero; a zero-hit osu! play is worth exactly 0 pp for arbitrary attributes. Finiteness/sign of stars and pp in general needs powf/ln/exp and is not claimed.", "DESIGN.md §5 C09",
+         "counts <= 2^20; accuracy <= 1 only bounded (counts <= 63, thorough tier); taiko/catch/mania zero-hit pp not covered"),
+ "C10": ("other", "Bounded stand-ins for the raw_strains feature only: every method of the compact StrainsVec (push, len, iter, sum, retain_non_zero, transmute_into_vec) equals the plain Vec<f64> semantics for every zero/positive pattern of up to 3 pushes with values symbolic over their whole class; the union entry type is proved for all 2^64 bit patterns. The sync feature (Rc/Arc wrappers) and four-way build equality are outside the technique.", "DESIGN.md §5 C10",
+         "A-NONNEG: skills push only non-negative peaks; into_vec / sort_desc not covered (std sort does not finish)"),
+ "C11": ("proof", "Partial: proof that every unsafe union read in StrainsEntry is of the live field for all 2^64 bit patterns and that push()'s guard implies new_value's safety precondition for every f64; the decoder's borrowed-pointer scratch buffer is empty after every use including failed lines; clock-rate bits are never zero (NonZeroU64::new_unchecked). Bounded: no UB under Kani's memory model for StrainsVec operation sequences of <= 3 pushes. Self-referential gradual structs (lifetime transmutes) are not claimed.", "DESIGN.md §5 C11",
+         "Kani memory model; sequences <= 3 pushes; gradual calculators' lifetime extension and moves not covered"),
  "C12": ("proof", "Postcondition of generate_state (C12 clauses 1-6) proved by Kani/CBMC on the real functions of all four modes for every u32 value of every optional field on the accuracy-free paths and the loop-free accuracy arms; attribute counts <= 2^20. Accuracy search arms (float loops) are thorough-tier / bounded.", "DESIGN.md §5 C12",
          "legacy mods only; accuracy in [0,1] non-NaN; catch provided counts <= 2^30; Kani/CBMC trusted"),
- "C15": ("other", "Bounded stand-ins: iterator-protocol obligations (len/size_hint == remaining; next; Iterator::nth returns None when fewer than k+1 values remain; invariant preserved so exhausted stays exhausted without overflow) checked from every state of the representation invariant with the object count fixed per harness (0..3 quick, 4 thorough) and idx / k fully symbolic, for osu, catch, mania and the healthy taiko class; F3/F4 (taiko) are known findings.", "DESIGN.md §5 C15",
-         "skill process/eval stubbed; inductive base case (new establishes the invariant) not proved; performance-side nth/last covered by C03's obligations"),
+ "C14": ("proof", "Partial: passed_objects(n) limits to exactly n for every n incl. 0 and is unlimited when unset; catch's limited object counter obeys its per-call contract (Kani, all values) and by induction (Verus lemma, unbounded) counts min(n, total), monotonically and saturating; gradual values count exactly the first i objects (bounded, from C02's obligations). osu!/taiko counting closures and mania's n_objects call site are not under contract.", "DESIGN.md §5 C14",
+         "the osu/taiko counting closures could not be lifted within the time; mania n_objects vs. map rewrites (Invert) not checked"),
+ "C15": ("other", "Bounded stand-ins: iterator-protocol obligations (len/size_hint == remaining; next; Iterator::nth returns None when fewer than k+1 values remain; invariant preserved so exhausted stays exhausted without overflow) checked from every state of the representation invariant with the object count fixed per harness (0..3 quick, 4 thorough) and idx / k fully symbolic, for osu, catch, mania and the healthy taiko class; gradual performance nth/last/next for osu, mania, catch; F3/F4 (taiko) are known findings.", "DESIGN.md §5 C15",
+         "skill process/eval stubbed; inductive base case (new establishes the invariant) not proved"),
+ "C16": ("other", "Partial, bounded: the open section's peak is always appended before export or aggregation (so all skills report the same number of sections), strains and difficulty are computed on the same conversion (call-site contract), StrainsVec iter/sum/retain/transmute equal the plain list for <= 3 pushes. The decay-weighted aggregation itself (std sort) and finiteness of peaks are not covered.", "DESIGN.md §5 C16",
+         "difficulty_value (sort) did not finish and is not claimed; peaks' finiteness is float pipeline"),
+ "C17": ("proof", "Partial: CS/HP given with with_mods=true are reported back unchanged for all mods and clock rates (proof); ok/meh windows exist exactly per mode (proof); HR never lowers / EZ never raises an attribute on [0,10] (proof); with_mods values give clock-rate independent windows (bounded grid); the osu! and catch difficulty setups store the builder's AR/HP/hit windows unchanged (call-site proofs); monotonicity of all six window tables over the f32 input domain (thorough tier). build()/hit_windows() float agreement and the AR/OD round trip are not claimed.", "DESIGN.md §5 C17",
+         "legacy mods; round trip and 1/clock_rate scaling are float identities the solver does not finish"),
  "C18": ("proof", "Complete loop-free Kani proofs: every Performance setter equals the same setter applied to the Difficulty (or is the identity where documented irrelevant) in all four modes; Difficulty survives inspect()/into_difficulty() field-wise (clock rate bit-exact); clamps to documented bounds for all f32/f64 bit patterns.", "DESIGN.md §5 C18",
          "mods = GameMods::Legacy(bits); NaN attribute overrides excluded (PartialEq not reflexive); builders created from default attributes"),
+ "C19": ("proof", "Partial: taiko's tandem sort keeps sounds paired (Verus, all lengths); column_to_pos / ManiaObject::column are inverse for every key count a conversion can produce and column(x,t) < t for all f32 x (proofs); random columns stay in range for every generator state (proof); stair patterns stay below the key count (bounded span counts); effect points stay strictly ordered (bounded); catch conversion changes only mode and is_convert (proof on object-free maps). Output sortedness of the mania converter and non-negative durations are not claimed.", "DESIGN.md §5 C19",
+         "pattern generators other than the stair are not under contract; mania legacy sort not verified"),
 }
 NA = {
  "C01": "determinism over call histories is a 2-safety hyperproperty of the whole API (and bpm() depends on HashMap RandomState iteration order): no single-call contract within reach of Verus or Kani expresses it; see DESIGN.md §5 C01",
  "C04": "the claim is equality of two executions of the same float difficulty pipeline; the only code specific to it (MapOrAttrs::insert_attrs / From impls) has no arithmetic to put under contract; see DESIGN.md §5 C04",
  "C20": "Kani has no thread support and Verus would need its permission types threaded through Rc<RefCell>/Arc<RwLock> code; absence of statics and Send/Sync are type-checker facts, not deductive obligations; see DESIGN.md §5 C20",
 }
+NA["C13"] = "optimality of the accuracy-driven search is a claim about IEEE-double arithmetic over a floor/ceil window compared with every competitor; the bounded stand-in planned in DESIGN.md (taiko/catch, N<=12, ~10 min per harness) was not built in the time available and no contract within reach decides it for osu! (2-D) or mania (5-D); see DESIGN.md §5 C13"
 NOT_BUILT = "no contract obligation is registered for this property yet (not built); see DESIGN.md §5"
 
 units = registry.load()
